@@ -413,6 +413,13 @@ def conditions(prop, tier):
                             extra_pre=['perm < %d' % (6 if q else 24)],
                             bounds='DEFVAL notations string/hex/bin/enum label/bit list/OID label on the matching base types through a chain of %d '
                                    'derived types, order symbolic, split: %s' % (depth, sp)))
+    # the DEFVAL form follows the base type of THIS compilation, also when the same generator objects compiled an earlier
+    # release in which the type name stood for something else (condition shared with C12)
+    for be in (0, 1):
+        out.append(dict(name='C05.defval-two-releases.%s' % ('pysnmp' if be else 'json'), module='harness.c12_state', fn='two_releases',
+                        fixed=dict(backend=be), timeout=t,
+                        bounds='two releases of the same module names compiled by the same generator objects; the TC an object with DEFVAL refers to '
+                               'stands for any ordered pair of 4 base types'))
     return out
 
 
